@@ -32,7 +32,10 @@ MANIFEST = {
             "exhaustively on bounded models (2 gauges, one perpetual, <= 3 locks, <= 4 epochs, amounts <= 12). The code-following model "
             "(named deviations: 100-unit 'spam' skip, finish without qualifying locks in the last epoch, per-owner batching of receivers) "
             "is replayed on the real app state by state; random histories are validated line by line and every line where a deviation "
-            "changes the outcome is reported as a finding. Design level, unbounded parameters: for any deposit, top-ups, number of epochs, "
+            "changes the outcome is reported as a finding. One recorded history in six is a 'big' history: one reward denomination is logged "
+            "in units of 10^12 base units and enters gauges in multiples of lcm(1..12)*lcm(1..6) units (6..11 multiples = 2^63..2^64 base units, "
+            "12 and more above 2^64), gauges run over <= 6 epochs and the locks of a denomination hold <= 12 tokens, so that every share the code "
+            "has to compute is a whole number of units and amounts beyond the native word are decided by the same specification. Design level, unbounded parameters: for any deposit, top-ups, number of epochs, "
             "perpetual or not, any other gauges sharing the module account and ANY per-epoch payout with payout * remainingEpochs <= remaining "
             "(what the sum of floor shares guarantees), distributed <= deposited, paid = recorded, module account >= undistributed remainders of "
             "unfinished gauges, finished exactly when numEpochs paying epochs are filled and final afterwards are an inductive invariant (plus "
